@@ -14,7 +14,7 @@ from .. import codec as C
 from .. import sym
 from .. import frameops as FO
 from ..flow import subst, ctor_kwargs
-from .common import as_dict, unparse, call_name, strip_calls
+from .common import as_dict, as_dict_call, unparse, call_name, strip_calls
 
 QUA = "reamber.quaver"
 QUAMAP = f"{QUA}.QuaMap.QuaMap"
@@ -392,9 +392,9 @@ def item_tables(ctx, slot: str):
     dvar = [p for p in params_of(r.node)][0]
     rt = None
     for n in walk_no_nested(r.node):
-        if isinstance(n, ast.Call) and call_name(n) == "dict" and n.keywords and any(
-                isinstance(x, ast.Call) and call_name(x) == "get" for x in ast.walk(n)):
-            rt = get_calls_table(ctx, r, n, dvar)
+        c_ = as_dict_call(n)
+        if c_ is not None and c_.keywords and any(isinstance(x, ast.Call) and call_name(x) == "get" for x in ast.walk(n)):
+            rt = get_calls_table(ctx, r, c_, dvar)
             break
     return wt, rt, w, r
 
